@@ -174,6 +174,9 @@ func (g *gen) existing(md *model) (string, string) {
 	return p[0], p[1]
 }
 
+var inPlaceFields = []string{"in:values[0]", "in:cons[0].key", "in:cons[0].op", "in:append-values", "in:reslice-values",
+	"in:labels[0]", "in:append-labels", "in:reslice-labels", "in:start[0]", "in:end[0]"}
+
 var allKinds = []string{kSetRule, kDeleteRule, kSetRules, kBatch, kSetRuleGroup, kDeleteRuleGroup, kSetGroupBundle,
 	kSetAllGroupBundles, kDeleteGroupBundle, kGetModifySet, kGetEditSetGroup, kGetEditSetBundle}
 
@@ -330,6 +333,15 @@ func (g *gen) op(md *model) opSpec {
 	default:
 		gr, id := g.existing(md)
 		m := &modSpec{Group: gr, ID: id}
+		if g.rng.Intn(4) == 0 {
+			m.Field = g.pick(inPlaceFields)
+			m.Str = g.pick([]string{"x", "ssd", "zone", "in", "notIn"})
+			if m.Field == "in:cons[0].op" {
+				m.Str = g.pick([]string{"in", "notIn", "exists"})
+			}
+			m.Then = g.pick([]string{"", "", "reject", "none"})
+			return opSpec{Kind: kGetModifySet, Mod: m}
+		}
 		switch y := g.rng.Intn(20); {
 		case y < 8: // what server.SetReplicationConfig does
 			m.Field, m.Int = "count", 1+g.rng.Intn(5)
@@ -477,7 +489,35 @@ func applyReal(m *placement.RuleManager, op opSpec) (err error, notFound bool) {
 		if r == nil {
 			return nil, true
 		}
+		nv := 0
+		if len(r.LabelConstraints) > 0 {
+			nv = len(r.LabelConstraints[0].Values)
+		}
+		if !inPlaceApplicable(op.Mod.Field, len(r.LabelConstraints), nv, len(r.LocationLabels), len(r.StartKey), len(r.EndKey)) {
+			return nil, true
+		}
 		switch op.Mod.Field {
+		// edits INSIDE what the returned rule refers to (no field of the rule itself is replaced)
+		case "in:values[0]":
+			r.LabelConstraints[0].Values[0] = op.Mod.Str
+		case "in:cons[0].key":
+			r.LabelConstraints[0].Key = op.Mod.Str
+		case "in:cons[0].op":
+			r.LabelConstraints[0].Op = placement.LabelConstraintOp(op.Mod.Str)
+		case "in:append-values":
+			r.LabelConstraints[0].Values = append(r.LabelConstraints[0].Values, op.Mod.Str)
+		case "in:reslice-values":
+			r.LabelConstraints[0].Values = r.LabelConstraints[0].Values[:nv-1]
+		case "in:labels[0]":
+			r.LocationLabels[0] = op.Mod.Str
+		case "in:append-labels":
+			r.LocationLabels = append(r.LocationLabels, op.Mod.Str)
+		case "in:reslice-labels":
+			r.LocationLabels = r.LocationLabels[:len(r.LocationLabels)-1]
+		case "in:start[0]":
+			r.StartKey[0] ^= 0xff
+		case "in:end[0]":
+			r.EndKey[0] ^= 0xff
 		case "count":
 			r.Count = op.Mod.Int
 		case "labels":
@@ -499,6 +539,12 @@ func applyReal(m *placement.RuleManager, op opSpec) (err error, notFound bool) {
 			for _, c := range op.Mod.Cons {
 				r.LabelConstraints = append(r.LabelConstraints, placement.LabelConstraint{Key: c.Key, Op: placement.LabelConstraintOp(c.Op), Values: append([]string(nil), c.Values...)})
 			}
+		}
+		switch op.Mod.Then {
+		case "none":
+			return nil, false
+		case "reject":
+			r.Count = 0
 		}
 		if err := m.SetRule(r); err != nil || !op.Mod.Again {
 			return err, false
